@@ -248,6 +248,30 @@ func (w *c14World) fingerprint(full bool) string {
 	}
 	s := fmt.Sprintf("v=%v w=%v maps=%d/%d/%d", id(v), id(x), len(w.nsMap), len(w.varMap), len(w.fnMap))
 	if full {
+		// the binding maps entry by entry (node-set values by slice header)
+		var ms []string
+		for k, u := range w.nsMap {
+			ms = append(ms, "ns:"+k+"="+u)
+		}
+		for k, r := range w.varMap {
+			if ns, ok := r.(xsel.NodeSet); ok {
+				// identity relative to the caller's slots (reset() re-allocates them)
+				which := "other"
+				if cap(ns) > 0 && cap(w.slotV) > 0 && &ns[:cap(ns)][0] == &w.slotV[:cap(w.slotV)][0] {
+					which = "slotV"
+				} else if cap(ns) > 0 && cap(w.slotW) > 0 && &ns[:cap(ns)][0] == &w.slotW[:cap(w.slotW)][0] {
+					which = "slotW"
+				}
+				ms = append(ms, fmt.Sprintf("var:%v=%s/%d/%d", k, which, len(ns), cap(ns)))
+			} else {
+				ms = append(ms, fmt.Sprintf("var:%v=%v", k, r))
+			}
+		}
+		for k, f := range w.fnMap {
+			ms = append(ms, fmt.Sprintf("fn:%v=%v", k, f != nil))
+		}
+		sort.Strings(ms)
+		s += " " + strings.Join(ms, ",")
 		// the proxy tree's own lists, spare capacity included
 		for _, n := range w.b.Doc.Nodes {
 			y := w.tree.wrap[w.b.ToCur[n]]
@@ -388,6 +412,21 @@ func c14Library(c *run.Check) {
 			c.Violation(c14Replay{Scenario: sc, Detail: "non-deterministic replay"}, fmt.Sprintf("HARNESS: scenario %q is not deterministic under the scheduler (%d vs %d points)", sc.Name, len(p1), len(p2)))
 			return
 		}
+		// read-only audit: full fingerprint of everything shared at EVERY scheduling
+		// point of two schedules (see c14Audit); a write is a violation of its own
+		asteps, averdict, gchanged := c14Audit(sc, serial)
+		if gchanged != "" {
+			mu.Lock()
+			c.Set("library_globals_changed_during_audit", gchanged)
+			mu.Unlock()
+		}
+		if averdict != "" {
+			c.Violation(c14Replay{Scenario: sc, Schedule: []int{}, Detail: averdict}, fmt.Sprintf("scenario %q, read-only audit: %s", sc.Name, averdict))
+			return
+		}
+		mu.Lock()
+		c.Add("audited_steps_all_read_only", int64(asteps))
+		mu.Unlock()
 		outcomes := map[string]int{}
 		maxPoints := 0
 		nexec := 0
@@ -429,7 +468,9 @@ func c14Library(c *run.Check) {
 			return
 		}
 		if ex.Capped {
-			c.Exhaustive = false
+			mu.Lock()
+			c.Add("library_scenarios_with_capped_bounded_search", 1)
+			mu.Unlock()
 		}
 		world.reset()
 		if now := world.fingerprint(true); now != pristine {
@@ -496,6 +537,35 @@ func C14Race(args []string) int {
 func C14(c *run.Check) {
 	c14Library(c)
 	if c.Violations() == 0 {
+		// static half of the read-only argument: package-level variables of the library
+		repo := "/repo"
+		if r := os.Getenv("XV_REPO"); r != "" {
+			repo = r
+		}
+		nvars, writes, err := c14GlobalWrites(repo)
+		c.Set("library_package_level_vars", nvars)
+		if LibGlobals != nil {
+			c.Set("library_package_level_vars_in_fingerprint", len(LibGlobals()))
+		} else {
+			c.Set("library_package_level_vars_in_fingerprint", "none (harness built without the globals overlay): package-level state is covered by the static scan only")
+		}
+		switch {
+		case err != nil:
+			c.Set("library_reduction", "not claimed: the static scan of package-level variables failed: "+err.Error())
+			c.Exhaustive = false
+		case len(writes) > 0:
+			c.Set("library_package_level_writes_outside_init", writes)
+			c.Set("library_reduction", "not claimed: library code outside init() writes package-level variables (listed); only the schedules enumerated by the bounded search are covered")
+			c.Exhaustive = false
+		case c.Get("library_globals_changed_during_audit") != nil:
+			c.Set("library_reduction", "not claimed: package-level variables of the library changed while the audited calls ran (library_globals_changed_during_audit); that is not a violation by itself (a synchronised cache is legitimate), but the steps are then not all reads; only the schedules enumerated by the bounded search are covered")
+			c.Exhaustive = false
+		default:
+			c.Set("library_package_level_writes_outside_init", []string{})
+			c.Set("library_reduction", "every step (code between two scheduling points) of two audited executions per scenario left every shared object bit-identical (proxy lists incl. spare capacity, real tree, compiled expressions, binding maps, caller slices, package-level variables of the library packages), and no library function outside init() assigns to a package-level variable: all steps are reads of shared state, hence pairwise independent, each thread behaves identically in every interleaving, and ALL interleavings of each scenario (any number of preemptions) are trace-equivalent to the audited ones at scheduling-point granularity; the bounded depth-first search is kept as a second line of defence")
+		}
+	}
+	if c.Violations() == 0 {
 		c14CLI(c)
 	}
 	// auxiliary: free-running -race pass of the same scenario bodies
@@ -513,12 +583,14 @@ func C14(c *run.Check) {
 				}
 				c.Violation(map[string]string{"kind": "race-detector", "output": msg}, "auxiliary free-running -race pass reported a data race:\n"+msg)
 			}
-			c.Set("race_pass", "30 rounds x all scenarios free-running under the Go race detector: clean")
+			if c.Violations() == 0 {
+				c.Set("race_pass", "30 rounds x all scenarios free-running under the Go race detector: clean")
+			}
 		} else {
 			c.Set("race_pass", "skipped (no -race binary)")
 		}
 	}
-	c.Rule = "library: 8 scenarios of 2-3 threads x 1-2 real xsel.Exec calls sharing one cursor tree (through proxy cursors whose every accessor is a scheduling point), the compiled expressions, caller-owned binding maps and a caller-owned node-set variable with spare capacity; ALL schedules with at most 2 (thorough: 3) preemptions enumerated depth-first; in every execution each call must return its serial result, the shared slices must be unchanged at every scheduling point and deep fingerprints of tree, expressions and maps unchanged at the end. CLI: the real main() under the same scheduler, see cli_* keys. Auxiliary: the same bodies free-running under the race detector"
+	c.Rule = "library: 11 scenarios of 2-3 threads x 1-2 real xsel.Exec calls sharing one cursor tree (through proxy cursors whose every accessor is a scheduling point), the compiled expressions, caller-owned binding maps and a caller-owned node-set variable with spare capacity; ALL schedules with at most 2 (thorough: 3) preemptions enumerated depth-first; in every execution each call must return its serial result, the shared slices must be unchanged at every scheduling point and deep fingerprints of tree, expressions and maps unchanged at the end; plus a read-only audit (full fingerprint of everything shared at EVERY scheduling point of two schedules per scenario + static scan for writes to package-level variables) that extends the verdict to all interleavings by independence of read-only steps (library_reduction). CLI: the real main() under the same scheduler, see cli_* keys. Auxiliary: the same bodies free-running under the race detector"
 	c.Assume("scheduling points are tree accesses, user-function calls and (CLI) goroutine/channel/WaitGroup/print operations; interleavings below that granularity are covered only by the auxiliary race-detector pass")
 }
 
@@ -543,4 +615,93 @@ func init() {
 		_, verdict, _ := c14RunOnce(newC14World(r.Scenario), r.Scenario, c14Serial(r.Scenario), r.Schedule, true)
 		return verdict
 	}
+}
+
+// ---- read-only audit (partial-order reduction argument) -------------------------
+//
+// c14Audit runs the scenario under two schedules (default: each thread to
+// completion; rotate: switch to the next thread at every scheduling point) and
+// takes the FULL fingerprint of everything the threads share - proxy lists with
+// spare capacity, the real tree, every compiled expression, the binding maps
+// and the caller's slices - at EVERY scheduling point. If no step changes it,
+// every step only reads shared state: all steps of different threads are
+// independent, each thread's behaviour is the same in every interleaving (by
+// induction on the first step that could differ, which would need a write),
+// and every schedule is trace-equivalent to the explored ones.
+func c14Audit(sc c14Scenario, serial [][]string) (steps int, verdict string, globalsChanged string) {
+	g0 := libGlobalsPrint(true)
+	defer func() {
+		if g0 != nil && globalsChanged == "" {
+			globalsChanged = libGlobalsDiff(g0, libGlobalsPrint(true))
+		}
+	}()
+	for mode := 0; mode < 2; mode++ {
+		w := newC14World(sc)
+		s := sched.New(nil)
+		if mode == 1 {
+			s.Policy = func(en []int, running int) int {
+				// the enabled thread with the smallest id greater than the running one, else the smallest
+				best := -1
+				for i, id := range en {
+					if id > running && (best < 0 || id < en[best]) {
+						best = i
+					}
+				}
+				if best >= 0 {
+					return best
+				}
+				best = 0
+				for i, id := range en {
+					if id < en[best] {
+						best = i
+					}
+				}
+				return best
+			}
+		}
+		w.tree.s = s
+		pristine := w.fingerprint(true)
+		s.OnPoint = func(_ *sched.Sched, label string) {
+			steps++
+			if g0 != nil && globalsChanged == "" {
+				// not a violation by itself (a synchronised cache or counter is legitimate),
+				// but then the steps are not all reads and the reduction is not claimed
+				globalsChanged = libGlobalsDiff(g0, libGlobalsPrint(false))
+			}
+			if verdict == "" {
+				if now := w.fingerprint(true); now != pristine {
+					verdict = fmt.Sprintf("a step wrote to shared state (audit schedule %d, before scheduling point %d, %s): %s -> %s", mode, len(s.Points), label, pristine, now)
+				}
+			}
+		}
+		results := make([][]string, len(sc.Threads))
+		for ti, calls := range sc.Threads {
+			ti, calls := ti, calls
+			results[ti] = make([]string, len(calls))
+			s.Go(fmt.Sprint("T", ti), func() {
+				for ci, c := range calls {
+					s.Point("call")
+					results[ti][ci] = w.exec(c)
+				}
+			})
+		}
+		if msg := s.Run(); msg != "" {
+			return steps, msg, globalsChanged
+		}
+		w.tree.s = nil
+		if verdict != "" {
+			return steps, verdict, globalsChanged
+		}
+		if now := w.fingerprint(true); now != pristine {
+			return steps, "the last step wrote to shared state: " + pristine + " -> " + now, globalsChanged
+		}
+		for ti := range results {
+			for ci := range results[ti] {
+				if results[ti][ci] != serial[ti][ci] {
+					return steps, fmt.Sprintf("thread %d call %d (%s) returned %s under audit schedule %d but %s when run alone", ti, ci, sc.Threads[ti][ci].Expr, results[ti][ci], mode, serial[ti][ci]), globalsChanged
+				}
+			}
+		}
+	}
+	return steps, "", globalsChanged
 }
